@@ -30,8 +30,11 @@ for m in muts:
             r = subprocess.run([os.path.join(V, "check"), prop, "--repo", d], capture_output=True, text=True)
             first = (r.stdout.strip().splitlines() or [""])[0]
             row[prop] = (r.returncode, first[:200])
-        ok = all(rc == 1 for rc, _ in row.values())
-        print(("CAUGHT  " if ok else "MISSED  ") + m["id"], json.dumps(row))
+        # `"expect": "undecided"`: an edit that leaves the modelled configuration unchanged (e.g. code under cfg(debug_assertions))
+        # must make the check answer UNDECIDED (exit 2) - never OK
+        want = 2 if m.get("expect") == "undecided" else 1
+        ok = all(rc == want for rc, _ in row.values())
+        print((("CAUGHT  " if want == 1 else "REFUSED ") if ok else "MISSED  ") + m["id"], json.dumps(row))
         results.append((m["id"], row))
     finally:
         shutil.rmtree(d, ignore_errors=True)
